@@ -165,6 +165,19 @@ theorem kat_step_nonrx (e : Ep) (ev : Ev) (hne : ∀ c, ev ≠ .rx c) : (step e 
     · split <;> rfl
 
 
+theorem kat_handleMsg_noninit (e : Ep) (m : Msg) (hm : ∀ a b c d x, m ≠ .sessInit a b c d x) :
+    (handleMsg e m).1.kaTime = e.kaTime := by
+  unfold handleMsg
+  cases m with
+  | sessInit a b c d x => exact absurd rfl (hm a b c d x)
+  | contact f => simp
+  | sessTerm f r => simp
+  | keepalive => rfl
+  | msgReject a b => rfl
+  | xferSegment f t x d => simp
+  | xferAck f t l => simp
+  | xferRefuse r t => simp
+
 theorem kc_onSessInit (e : Ep) (p : PeerInit) (hi : KC e) : KC (onSessInit e p).1 := by
   unfold KC at *
   intro h
